@@ -155,7 +155,10 @@ def consume_paired(scanner: Scanner):
     :return `true` if paired token was consumed
     """
     global scan_opt
-    return eat_pair(scanner, Chars.LeftAngle, Chars.RightAngle, scan_opt) or \
+    # Template section inside tag may contain `>`: `<body <?php echo $this->cls(); ?>>`
+    return consume_section(scanner, '<?', '?>') or \
+        consume_section(scanner, '<%', '%>') or \
+        eat_pair(scanner, Chars.LeftAngle, Chars.RightAngle, scan_opt) or \
         eat_pair(scanner, Chars.LeftRound, Chars.RightRound, scan_opt) or \
         eat_pair(scanner, Chars.LeftSquare, Chars.RightSquare, scan_opt) or \
         eat_pair(scanner, Chars.LeftCurly, Chars.RightCurly, scan_opt)
